@@ -108,7 +108,6 @@ def search_corpus(ctx):
 
 
 def run_chunk(ctx, n_programs, max_tasks=5):
-    lr._patch_mapper()
     drv = ctx.driver()
     rng = ctx.rng
     if getattr(ctx, 'chunk', 0) == 0:
